@@ -287,7 +287,7 @@ func (e *Engine) snapEntry(s *State, fn *ssa.Function, args []*Val, depth int) {
 // havocked, and the callee is assumed not to panic. Each such callee is listed in the evidence.
 func (e *Engine) unknownCall(s *State, key string, resT types.Type, args []*Val, in ssa.Instruction) *Val {
 	if callee := e.P.Funcs[key]; callee != nil && e.P.SameSCC(e.Fn, callee) {
-		e.structural(e.oblName(s, in, "callee-pre")+"/rec-decreases", "decreases", in.Pos(), "recursive call to "+key+" decreases the measure", false, "recursive call to a function without contract/decreases clause")
+		e.structural(e.oblName(s, in, "callee-pre")+"/rec-decreases", "rec-decreases", in.Pos(), "recursive call to "+key+" decreases the measure", false, "recursive call to a function without contract/decreases clause")
 	}
 	e.note("uncontracted callee " + key + ": results unconstrained, heap havocked, assumed panic-free")
 	e.event(s, Event{Kind: "call", What: key, Args: args, ArgTypes: e.argTypesFor(args), Pos: e.P.Pos(in.Pos()), Instr: in, Extra: map[string]string{"unknown": "1"}})
@@ -307,7 +307,7 @@ func (e *Engine) unknownCall(s *State, key string, resT types.Type, args []*Val,
 
 // applyContract replaces a call by the callee's contract: assert requires, havoc modifies, assume ensures.
 func (e *Engine) applyContract(s *State, ct *Contract, fn *ssa.Function, sig *types.Signature, recvT types.Type, args []*Val, in ssa.Instruction, key string) *Val {
-	ctx := &SpecCtx{Fn: fn, Params: map[string]*Val{}, PTypes: map[string]types.Type{}, Bound: map[string]*SV{}, OldEpoch: true}
+	ctx := &SpecCtx{Fn: fn, Params: map[string]*Val{}, PTypes: map[string]types.Type{}, Bound: map[string]*SV{}, OldEpoch: true, AtCallSite: true}
 	if ctx.Fn == nil {
 		ctx.Fn = s.top().Fn
 	}
@@ -360,12 +360,12 @@ func (e *Engine) applyContract(s *State, ct *Contract, fn *ssa.Function, sig *ty
 		name := fmt.Sprintf("%s/rec-decreases#%d", base, ord)
 		switch {
 		case ct.Decreases == nil:
-			e.structural(name, "decreases", in.Pos(), "recursive call to "+key+" decreases the measure", false, "callee on the same call-graph cycle has no decreases clause")
+			e.structural(name, "rec-decreases", in.Pos(), "recursive call to "+key+" decreases the measure", false, "callee on the same call-graph cycle has no decreases clause")
 		case e.entryMeasure == "":
-			e.structural(name, "decreases", in.Pos(), "recursive call to "+key+" decreases the measure", false, "caller has no decreases clause")
+			e.structural(name, "rec-decreases", in.Pos(), "recursive call to "+key+" decreases the measure", false, "caller has no decreases clause")
 		default:
 			m := e.evalTerm(s, ctx, ct.Decreases.Expr)
-			e.assert(s, name, "decreases", in.Pos(), "recursive call to "+key+": measure "+ct.Decreases.Text+" decreases and is bounded below", and(app(">=", e.entryMeasure, "0"), app("<", m, e.entryMeasure)))
+			e.assert(s, name, "rec-decreases", in.Pos(), "recursive call to "+key+": measure "+ct.Decreases.Text+" decreases and is bounded below", and(app(">=", e.entryMeasure, "0"), app("<", m, e.entryMeasure)))
 		}
 	}
 	for k, rq := range ct.Requires {
